@@ -1,11 +1,11 @@
 package main
 
 import (
-	"strconv"
 	"bytes"
 	stdjson "encoding/json"
 	"fmt"
 	"math"
+	"strconv"
 	"strings"
 
 	"github.com/segmentio/encoding/json"
